@@ -305,7 +305,7 @@ func c04scenarios(res *report.Result) []schedrun.Scenario {
 		if b == 2 {
 			w = 400000
 		}
-		out = append(out, schedrun.Scenario{Name: p.name(), Mode: explore.Delay, Bound: b, MaxSteps: 400000, Weight: w})
+		out = append(out, schedrun.Scenario{Name: p.name(), Mode: explore.Delay, Bound: b, MaxSteps: 400000, Weight: w, Postpone: b > 0})
 	}
 	return out
 }
